@@ -18,6 +18,13 @@
             arity n+1, empty field); printed with Lex!LineVerdict
      doc    base documents and their single-line variants (delete / substitute
             / add a line), printed with Lex!DocVerdict
+     xdoc   document templates for the cross-field rules: a template is a document with
+            slots (line, field, alternatives; the first alternative is the valid primary).
+            "Context" slots (the sequence of a segment given or `*`) are enumerated
+            as a full product, at most `maxdev` of the other slots deviate from their
+            primary, and every listed arrival order of the lines is generated
+            (segments first / referring line first / in between); printed with
+            Lex!DocVerdict, which does not depend on the order
      lmut   single-point mutations of whole valid lines as TEXT (delete, empty,
             duplicate a field; truncate; append tab; replace / delete / insert a
             character)                                     -- C07 input
@@ -41,6 +48,7 @@ LReps  == Cat.lreps
 LAlph  == Cat.lalph      \* [syms, n]
 Docs   == Cat.docs       \* [ver, dia, lines]
 Vars   == Cat.variants   \* [doc, op, k, f]
+Tmpl   == Cat.templates  \* [ver, dia, lines, slots: seq of [line, field, alts, ctx], orders, maxdev]
 Layers == Rng(Cat.layers)
 
 CharIdx == [ch \in Rng(Chars) |-> CHOOSE k \in DOMAIN Chars : Chars[k] = ch]
@@ -90,6 +98,21 @@ DocLines(x) ==
          [] v.op = "sub" -> Sub(d, v.k, v.f)
          [] v.op = "add" -> Append(d, v.f)
 
+(* document templates: w = one choice per slot, then the index of the arrival order;
+   choices not made yet stand for the primary alternative / the first order *)
+NSlots(a) == Len(Tmpl[a].slots)
+Choice(x, k) == IF k <= Len(x.w) THEN x.w[k] ELSE 1
+TDev(a, w) == Cardinality({k \in 1..MinOf(Len(w), NSlots(a)) : Tmpl[a].slots[k].ctx = 0 /\ w[k] # 1})
+RECURSIVE Fill(_, _, _)
+Fill(x, d, k) ==      \* put the chosen alternative of slots k.. into the lines d
+  IF k > NSlots(x.a) THEN d
+  ELSE LET sl == Tmpl[x.a].slots[k] IN
+       Fill(x, [d EXCEPT ![sl.line][sl.field] = sl.alts[Choice(x, k)]], k + 1)
+TDocLines(x) ==
+  LET d == Fill(x, Tmpl[x.a].lines, 1)
+      o == Tmpl[x.a].orders[Choice(x, NSlots(x.a) + 1)] IN
+  [k \in DOMAIN o |-> d[o[k]]]
+
 (* whole-line texts *)
 LText(a) == Join(VLines[a].f, "\t")
 LMutText(x) ==
@@ -123,6 +146,8 @@ Init ==
      /\ \E a \in DOMAIN Docs :
           \/ c = St("doc", a, <<0>>)
           \/ \E v \in DOMAIN Vars : Vars[v].doc = a /\ c = St("doc", a, <<v>>)
+  \/ /\ "xdoc" \in Layers
+     /\ \E a \in DOMAIN Tmpl : c = St("xdoc", a, <<>>)
   \/ /\ "lmut" \in Layers
      /\ \E a \in DOMAIN VLines :
           \/ \E k \in {1, 2, 3}, p \in 1..Len(VLines[a].f) : c = St("lmut", a, <<k, p, 0>>)
@@ -147,6 +172,14 @@ Next ==
      /\ Len(c.w) - NPos(c.a) < Recs[c.a].ntag
      /\ \E t \in DOMAIN Recs[c.a].tags : c' = [c EXCEPT !.w = Append(@, t)]
 
+  \/ /\ c.lay = "xdoc" /\ Len(c.w) < NSlots(c.a)
+     /\ \E k \in DOMAIN Tmpl[c.a].slots[Len(c.w) + 1].alts :
+          /\ (IF k = 1 \/ Tmpl[c.a].slots[Len(c.w) + 1].ctx = 1 THEN TRUE
+              ELSE TDev(c.a, c.w) < Tmpl[c.a].maxdev)
+          /\ c' = [c EXCEPT !.w = Append(@, k)]
+  \/ /\ c.lay = "xdoc" /\ Len(c.w) = NSlots(c.a)
+     /\ \E o \in DOMAIN Tmpl[c.a].orders : c' = [c EXCEPT !.w = Append(@, o)]
+
 Spec == Init /\ [][Next]_c
 
 Emit ==
@@ -162,6 +195,9 @@ Emit ==
     [] c.lay = "doc" ->
          LET d == DocLines(c) IN
          PrintT(<<"CD", Docs[c.a].ver, Docs[c.a].dia, EncD(d), DocVerdict(Docs[c.a].ver, Docs[c.a].dia, d)>>)
+    [] c.lay = "xdoc" ->
+         LET d == TDocLines(c) IN
+         PrintT(<<"CD", Tmpl[c.a].ver, Tmpl[c.a].dia, EncD(d), DocVerdict(Tmpl[c.a].ver, Tmpl[c.a].dia, d)>>)
     [] c.lay = "lmut" -> PrintT(<<"CT", VLines[c.a].ver, Enc(LMutText(c))>>)
     [] c.lay = "lenum" -> PrintT(<<"CT", "any", Enc(LEnumText(c))>>)
 =============================================================================
